@@ -36,7 +36,7 @@ RULE = ('bounded-exhaustive operation sequences over 2 lock objects x 2 threads 
         'a re-acquire probe by every (object, thread); random sequences up to length 12; every single and double '
         'OSError injection into open / lock / unlock / close at each call index over the sequences up to length 2 '
         '(quick) / 3; each runs on the real FileLock (module-global proxies, virtual time) and on the Lean model and '
-        'is judged by an independent contract monitor; distinct = distinct (config, faults, sequence) of length >= 2')
+        'is judged by an independent contract monitor; plus 1000 (quick) / 24000+ random multi-thread scenarios on the real code under the baton scheduler (every access to the thread lock, the descriptor and flock a scheduling point; monitor: is_locked while inside, re-acquirable after the releases, no residue, no exception); distinct = distinct (config, faults, sequence) of length >= 2')
 
 MODES = ['n', 't0', 't120', 'b']
 ALPHABET = ([('a', o, t, m) for o in (0, 1) for t in (0, 1) for m in MODES] +
@@ -158,6 +158,19 @@ def fault_monitor(reent, ops, res, env):
     return None
 
 
+def threads_monitor(r):
+    if r['notheld']:
+        return ('acquire reported success to thread(s) %s but the object says is_locked == False while they are inside'
+                % r['notheld'])
+    if r['hung']:
+        return 'after the releases the lock cannot be acquired again: threads wait for ever at %s' % (r['hung'],)
+    if any(r['still_locked']):
+        return 'an object still reports is_locked after every thread has released'
+    if r['errors']:
+        return 'exception out of acquire / release in a contender: %s' % (r['errors'][:2],)
+    return None
+
+
 def _chunk(payload):
     logging.disable(logging.CRITICAL)
     kind, quick, seed, part, nparts = payload
@@ -166,6 +179,27 @@ def _chunk(payload):
     work = F.mkworkdir()
     try:
         cases = []
+        if kind == 'threads':
+            # the contract under real contention: several threads on the same objects, every access of the code to
+            # its thread lock / descriptor / flock is a scheduling point (baton scheduler, as in C02's check)
+            import random
+            for i in range(part):
+                cseed = ((seed * 1000 + nparts) << 20) + i
+                rng = random.Random(cseed)
+                scn = F.gen_threads(rng)
+                pct = rng.choice([0, 0, 1, 2, 3])
+                case = {'scenario': scn, 'seed': cseed, 'pct': pct}
+                mark(case)
+                out.evaluations += 1
+                r = F.run_threads(scn, cseed, work, pct=pct)
+                case['schedule'] = r['trace']
+                out.fingerprints.add(fingerprint(('threads', scn, r['trace'])))
+                out.count('threads-part:threads:%d' % len(scn['scripts']))
+                msg = threads_monitor(r)
+                if msg:
+                    out.concrete.append({'case': case, 'what': msg, 'observed': r['labels'][-30:],
+                                         'signature': {'kind': 'contract', 'part': 'threads'}})
+            return out
         if kind == 'exhaustive':
             L = 3 if quick else 4
             idx = 0
@@ -284,6 +318,7 @@ def run(ctx):
     chunks = [('exhaustive', ctx.quick, ctx.seed, k, n) for k in range(n)]
     chunks += [('random', ctx.quick, ctx.seed, k, n) for k in range(n)]
     chunks += [('faults', ctx.quick, ctx.seed, k, n) for k in range(n)]
+    chunks += [('threads', ctx.quick, ctx.seed, 250 if ctx.quick else 6000, k) for k in range(n)]
     out = run_chunks(_chunk, chunks, n, limit_s=300 if ctx.quick else 3000)
     out.exhaustive = True
     out.extra['exhaustive_part'] = 'all sequences over the 24-operation alphabet up to length %d, 3 reentrancy configs' % (
@@ -318,6 +353,16 @@ def search(ctx, outcome):
 
 def replay(ctx, payload):
     c = payload.get('case') or (payload.get('first_differing_case') or {}).get('case')
+    if 'scenario' in c:
+        scn = c['scenario']
+        scn = {'reent': scn['reent'], 'scripts': [[tuple(r) for r in s] for s in scn['scripts']]}
+        work = F.mkworkdir()
+        try:
+            r = F.run_threads(scn, c['seed'], work, choices=c.get('schedule'), pct=0)
+        finally:
+            F.rmworkdir(work)
+        msg = threads_monitor(r)
+        return {'case': c, 'labels': r['labels'], 'monitor': msg, 'fails': bool(msg)}
     ops = [tuple(o) for o in c['ops']] + [tuple(o) for o in (c.get('tail') or [])]
     work = F.mkworkdir()
     try:
